@@ -93,6 +93,36 @@ package flag
 //@   modifies *
 //@   at call transform.NewAliasMangler(:
 //@     assert C14_both_the_dials_and_the_dialsflag_alias_tags_are_honoured: len(arg0) == 2 && cell(selem(arg0, 0), "string") == "dials" && cell(selem(arg0, 1), "string") == "dialsflag"
+//@   at call fieldVal.Convert(stringType):
+//@     assert C12_the_default_is_read_at_the_width_of_the_leaf_kind: k == String
+//@   at call fieldVal.Convert(boolType):
+//@     assert C12_the_default_is_read_at_the_width_of_the_leaf_kind: k == Bool
+//@   at call fieldVal.Convert(float64Type):
+//@     assert C12_the_default_is_read_at_the_width_of_the_leaf_kind: k == Float64
+//@   at call fieldVal.Convert(float32Type):
+//@     assert C12_the_default_is_read_at_the_width_of_the_leaf_kind: k == Float32
+//@   at call fieldVal.Convert(intType):
+//@     assert C12_the_default_is_read_at_the_width_of_the_leaf_kind: k == Int
+//@   at call fieldVal.Convert(int8Type):
+//@     assert C12_the_default_is_read_at_the_width_of_the_leaf_kind: k == Int8
+//@   at call fieldVal.Convert(int16Type):
+//@     assert C12_the_default_is_read_at_the_width_of_the_leaf_kind: k == Int16
+//@   at call fieldVal.Convert(int32Type):
+//@     assert C12_the_default_is_read_at_the_width_of_the_leaf_kind: k == Int32
+//@   at call fieldVal.Convert(int64Type):
+//@     assert C12_the_default_is_read_at_the_width_of_the_leaf_kind: k == Int64
+//@   at call fieldVal.Convert(uintType):
+//@     assert C12_the_default_is_read_at_the_width_of_the_leaf_kind: k == Uint
+//@   at call fieldVal.Convert(uint8Type):
+//@     assert C12_the_default_is_read_at_the_width_of_the_leaf_kind: k == Uint8
+//@   at call fieldVal.Convert(uint16Type):
+//@     assert C12_the_default_is_read_at_the_width_of_the_leaf_kind: k == Uint16
+//@   at call fieldVal.Convert(uint32Type):
+//@     assert C12_the_default_is_read_at_the_width_of_the_leaf_kind: k == Uint32
+//@   at call fieldVal.Convert(uint64Type):
+//@     assert C12_the_default_is_read_at_the_width_of_the_leaf_kind: k == Uint64
+//@   at call fieldVal.Convert(uintptrType):
+//@     assert C12_the_default_is_read_at_the_width_of_the_leaf_kind: k == Uintptr
 //@   at call s.Flags.Lookup(name):
 //@     assert C12_C18_a_leaf_is_recorded_under_its_flag_name_before_anything_is_skipped: mhas(s.flagFieldName, name) && mget(s.flagFieldName, name) == sf.Name
 //@   at call transform.NewTransformer(:
